@@ -191,7 +191,14 @@ func runC11(c *Ctx) {
 			okCopy := len(copyCalls) == 1
 			if okCopy {
 				a := copyCalls[0].Common().Args
-				okCopy = vFieldLoadO(clientReqT, "buf")(a[0]) && freeVarLoadIs(a[1], "body")
+				okCopy = vFieldLoadO(clientReqT, "buf")(a[0]) && func() bool {
+					ad, ok := derefLoad(a[1])
+					if !ok {
+						return false
+					}
+					fv, isFV := ad.(*ssa.FreeVar)
+					return isFV && freeVarCell(fv) == bodyCell
+				}()
 			}
 			c.obF("R11.2", gb, "first-call-copies-body-into-buffer", okCopy, "the first GetBody call copies the streaming body into the request's buffer", "")
 			var rebinds []ssa.Instruction
@@ -216,8 +223,25 @@ func runC11(c *Ctx) {
 					miss := pathExists(gb, copyCalls[0], r, nil, isOneOf(rebinds...))
 					c.obI("R11.2", r, "bytes-shown-are-bytes-sent", !miss && len(rebinds) > 0, "on the copying call the body that will be sent is re-bound to the buffer before its bytes are returned (what auth saw is what is sent)", "the bytes are shown without making the buffer the body that is sent")
 				} else {
-					copied := factBool(func(v ssa.Value) bool { return freeVarLoadIs(v, "copied") }, true)
-					c.obI("R11.2", r, "later-calls-serve-buffer", guardedBy(r, nil, copied), "later calls serve the buffer without reading the stream again", "")
+					// the "already copied" flag: a captured boolean variable (whatever it is called)
+					copied := factBool(func(v ssa.Value) bool {
+						ad, ok := derefLoad(v)
+						if !ok {
+							return false
+						}
+						fv, isFV := ad.(*ssa.FreeVar)
+						return isFV && typeStr(fv.Type()) == "*bool"
+					}, true)
+					// nothing to copy / nowhere to copy to: serving the buffer reads no stream either
+					noStream := anyFact(factNil(func(v ssa.Value) bool {
+						ad, ok := derefLoad(v)
+						if !ok {
+							return false
+						}
+						fv, isFV := ad.(*ssa.FreeVar)
+						return isFV && freeVarCell(fv) == bodyCell
+					}, true), factNil(vFieldLoadO(clientReqT, "buf"), true))
+					c.obI("R11.2", r, "later-calls-serve-buffer", guardedBy(r, nil, anyFact(copied, noStream)), "later calls serve the buffer without reading the stream again", "")
 				}
 			}
 			if len(copyCalls) == 1 {
@@ -329,7 +353,10 @@ func runC11(c *Ctx) {
 
 	// R11.4 every field and file visited
 	isCall := func(names ...string) func(ssa.Instruction) bool { return isCallInstrTo(names...) }
-	for _, ml := range mapLoops(g, vFieldLoad(clientReqT, "formFields", nil)) {
+	isFormFields := func(v ssa.Value) bool {
+		return vFieldLoad(clientReqT, "formFields", nil)(v) || vFieldLoadO(clientReqT, "formFields")(v)
+	}
+	for _, ml := range mapLoops(g, isFormFields) {
 		for _, sl := range sliceLoops(g, vOrigins(oIsValue(extractOf(ml.Next, 2)))) {
 			c.obI("R11.4", sl.Elem, "every-field-value-written", sl.everyIteration(isCall("(*mime/multipart.Writer).WriteField")), "every value of every form field is written", "")
 			for _, wf := range callsIn(g, "(*mime/multipart.Writer).WriteField") {
